@@ -42,6 +42,11 @@ type Engine struct {
 	Hits map[string]int
 	// CompareAll: compare every database in DBs after each step (C20); otherwise only the current one.
 	CompareAll bool
+	// Run executes the command under test (default: the embedded API). Observation always uses the
+	// embedded API.
+	Run func(args ...string) sut.Reply
+	// ObserverDB is the database the embedded connection is logically on (restored after observing).
+	ObserverDB *int
 }
 
 // New creates an engine on a fresh model whose clock is the server's virtual clock.
@@ -76,7 +81,11 @@ func (e *Engine) doer() model.Doer {
 // ObserveDB reads the universe of one database (switching the embedded connection there and back).
 func (e *Engine) ObserveDB(db int) map[string]model.KeyState {
 	cur := e.M.Cur
-	if db != cur {
+	if e.ObserverDB != nil {
+		cur = *e.ObserverDB
+		_ = e.S.Select(db)
+		defer func() { _ = e.S.Select(cur) }()
+	} else if db != cur {
 		_ = e.S.Select(db)
 		defer func() { _ = e.S.Select(cur) }()
 	}
@@ -164,7 +173,12 @@ func (e *Engine) Tick() *Failure {
 func (e *Engine) Exec(cmd ...string) *Failure {
 	pre := e.M.Clone()
 	now := e.M.NowMs()
-	rep := e.S.Do(cmd...)
+	var rep sut.Reply
+	if e.Run != nil {
+		rep = e.Run(cmd...)
+	} else {
+		rep = e.S.Do(cmd...)
+	}
 	step := TraceStep{Op: "cmd", Cmd: cmd, Reply: rep.String()}
 	var devs []findings.Deviation
 	if rep.Panic != "" {
